@@ -22,7 +22,7 @@ var trUnits = []*trUnit{
 	{pkg: "lib/common/compare", mod: "Compare", funcs: []string{"Time", "Decimal"}},
 	{pkg: "lib/model/commodity", mod: "Commodity", funcs: []string{"Commodity.Name", "Compare"}},
 	{pkg: "lib/model/account", mod: "Account", funcs: []string{
-		"Account.Segments", "Account.Name", "Account.Type", "Account.IsAL", "Account.IsIE", "Account.Level", "Compare",
+		"Account.Segments", "Account.Name", "Account.Type", "Account.IsAL", "Account.IsIE", "Account.Level", "Compare", "Account.String",
 	}},
 	{pkg: "lib/model/posting", mod: "Posting", funcs: []string{"Builder.Build", "Builders.Build", "Compare"}},
 	{pkg: "lib/model/transaction", mod: "Transaction", funcs: []string{"Compare", "Builder.Build", "expand"}},
@@ -52,6 +52,9 @@ var trUnits = []*trUnit{
 	{pkg: "lib/common/predicate", mod: "Predicate", funcs: []string{"True"}},
 	{pkg: "lib/common/mapper", mod: "Mapper", funcs: []string{"Identity"}},
 	{pkg: "lib/model", mod: "Model", funcs: nil},
+	{pkg: "lib/journal/printer", mod: "JPrinter", funcs: []string{"New", "Printer.Write", "padRight", "Printer.printPosting", "Printer.printOpen", "Printer.printClose",
+		"Printer.printPrice", "Printer.printAssertion", "Printer.printTransaction", "Printer.PrintDirective", "Printer.PrintDirectiveLn",
+		"Printer.UpdatePadding", "Printer.Initialize"}},
 	{pkg: "lib/journal", mod: "Journal", funcs: []string{"ComputePrices", "Valuate", "Filter", "CloseAccounts", "CompareDays", "New", "Builder.Day", "Builder.Build",
 		"Builder.Add", "Builder.Period", "Query.Into"},
 		agree: map[string]string{"ComputePrices": "Process", "Valuate": "Process", "Filter": "Process", "CloseAccounts": "Process", "Query.Into": "Query"}},
@@ -194,6 +197,10 @@ func (t *trTranslator) calleesIn(info *types.Info, root ast.Node) []*trFunc {
 				res = append(res, g)
 			}
 		}
+		if g, _ := t.writerCallee(info, call); g != nil {
+			res = append(res, g) // fmt.Fprintf(p, …) calls p.Write
+		}
+		res = append(res, t.fmtCallees(info, call)...) // and the String methods of its operands
 		return true
 	})
 	return res
@@ -334,9 +341,11 @@ func (t *trTranslator) translateFunc(f *trFunc) {
 			}
 		}
 	}
+	// named results: locals that start at their zero values (every return must list its values: a bare return is rejected)
+	var namedRes [][2]string
 	for i := 0; i < results.Len(); i++ {
-		if results.At(i).Name() != "" {
-			trFail(f.decl.Pos(), "named results are outside the subset")
+		if r := results.At(i); r.Name() != "" && r.Name() != "_" {
+			namedRes = append(namedRes, [2]string{c.local(r), c.leanType(r.Type(), f.decl.Pos())})
 		}
 	}
 	c.nresults = results.Len()
@@ -366,6 +375,9 @@ func (t *trTranslator) translateFunc(f *trFunc) {
 		return c.returnTerm(nil, f.decl.End())
 	}
 	term := c.stmts(body, end)
+	for i := len(namedRes) - 1; i >= 0; i-- {
+		term = trLet(namedRes[i][0], namedRes[i][1], trOne("GoZero.zero"), term)
+	}
 	params = append(params, c.extraParams...)
 	f.norder = len(c.extraParams)
 	f.extras = c.extraTypes
@@ -591,6 +603,9 @@ func trRun(repo string) (map[string]string, []string) {
 		b.WriteString("import Knut.GoSem.Basic\nimport Knut.GoSem.Time\nimport Knut.GoSem.Decimal\nimport Knut.GoSem.Strings\n")
 		if t.usesTree[u] {
 			b.WriteString("import Knut.GoSem.Multimap\n")
+		}
+		if s := body.String(); strings.Contains(s, "Fmt.pad") || strings.Contains(s, "Writer.Write") || strings.Contains(s, "Strings.Join") || strings.Contains(s, "Time.FormatISO") {
+			b.WriteString("import Knut.GoSem.Fmt\n") // io.Writer, fmt's padding, strings.Join, Time.Format (trans_units_jprinter.go)
 		}
 		var imps []string
 		for v := range t.imports[u] {
